@@ -1,12 +1,66 @@
-"""C19 - see DESIGN.md section 5."""
+"""C19 - shallow groundwater behaves consistently: stage/day clauses on traced runs + 'far table = no table' pairs."""
+import json
+import os
+import random
+
+import common as C
+import equiv as E
+import scenlib as L
+import tlc
 from checks import tracebase, cropfam
 
 PROP = "C19"
-MCS = {"quick": [("MC_Water.tla", "MC_Water_q1.cfg", 300)], "thorough": [("MC_Water.tla", "MC_Water_q1.cfg", 300)]}
+MCS = [("MC_Water.tla", "MC_Water_q1.cfg", 300)]
+
+
+def far_pairs(tier, seed):
+    rnd = random.Random(1900 + seed)
+    S = L.scenario
+    bases = [S("Maize", "SandyLoam", seed=seed + 1, irr={"method": 1, "kw": {"SMT": [60] * 4}}),
+             S("Wheat", "Clay", seed=seed + 2, seasons=2, off_season=True),
+             S("Tomato", "Paddy", seed=seed + 3, irr={"method": 4}, iwc={"value": ["WP", "WP"], "depth_layer": [1, 2]})]
+    if tier == "thorough":
+        bases += [S(c, rnd.choice(L.SOILS[:13]), seed=rnd.randrange(10 ** 6), irr=rnd.choice([None, {"method": 2}, {"method": 4}]), iwc=rnd.choice([{"value": ["WP"]}, {"wc_type": "Pct", "value": [50]}]))
+                  for c in rnd.sample(L.CROPS, 12)]
+    jobs, pairs = [], []
+    for sc in bases:
+        a = len(jobs)
+        jobs.append({"kind": "plain", "scenario": sc})
+        for depth in ([15.0, 40.0, 90.0] if tier == "thorough" else [40.0]):
+            b = dict(sc)
+            b["gw"] = {"water_table": "Y", "dates": [sc["start"]], "values": [depth]}
+            jobs.append({"kind": "plain", "scenario": b})
+            pairs.append((a, len(jobs) - 1, b, {"crop": sc["crop"]["name"], "far_table_m": depth}))
+    return jobs, pairs
 
 
 def run(tier, seed):
-    return tracebase.trace_check(PROP, tier, seed, cropfam.c19(tier, seed), MCS[tier])
+    rc = tracebase.trace_check(PROP, tier, seed, cropfam.c19(tier, seed), MCS)
+    jobs, pairs = far_pairs(tier, seed)
+    res = E.run_jobs(jobs)
+    V = C.Verdicts(PROP)
+    docs, meta = [], []
+    for a, b, sc, label in pairs:
+        if not (res[a].get("ok") and res[b].get("ok")):
+            bad = res[b] if res[a].get("ok") else res[a]
+            if not C.documented_rejection(bad.get("error")):
+                V.add("far.exception." + (bad.get("error") or {}).get("type", "?"), sc, {"label": label, "error": bad.get("error")})
+            continue
+        docs.append(E.pair_doc("ignoreZgw", res[a]["tables"], res[b]["tables"]))
+        meta.append((sc, label))
+    verdicts, st = tlc.validate_pairs(docs)
+    for (sc, label), v in zip(meta, verdicts):
+        if not v["ok"]:
+            V.add("far.ignoreZgw", sc, {"label": label, "verdict": v})
+    rc2 = V.report()
+    p = os.path.join(C.EVID, PROP + ".json")
+    ev = json.load(open(p))
+    ev["coverage"]["far_table_pairs_judged"] = len(docs)
+    ev["coverage"]["traces_validated_against_impl"] += len(docs)
+    ev["coverage"]["states"] += st["states"]
+    ev["violations"] = ev.get("violations", 0) + len(V.new)
+    json.dump(ev, open(p, "w"), indent=1)
+    return 1 if (rc or rc2) else 0
 
 
 def replay(path):
